@@ -46,7 +46,8 @@ theorem runInv_start (D : Path → Prop) (pp : Option PageId) (root : Node) (S S
     · intro hr; cases hr
     · intro hr; cases hr
     · intro hr; cases hr
-  refine ⟨Pos.wf_new, rfl, ?_, ?_, ?_, trivial, ?_, ?_, hrecon, rfl, ?_, rfl, ?_, ?_⟩
+  refine ⟨Pos.wf_new, rfl, ?_, ?_, ?_, trivial, ?_, ?_, hrecon, rfl, ?_, rfl, ?_, ?_,
+    ⟨List.nodup_nil, fun q hq => by cases hq⟩⟩
   · simp [Walker.startP, Walker.new, Walker.newInner, flatStore]
   · simp [Walker.startP, Walker.new, Walker.newInner]
   · intro sp rest e; cases e
@@ -67,6 +68,43 @@ theorem final_log_nodup (hs : H.Sound) {D : Path → Prop} (pp : Option PageId) 
     ⟨by simp, rfl, rfl, rfl⟩ (by intro s hs'; cases hs')
   exact (logPos_compactUp H (cfgOf H ps pp) _ none h1).1
 
+theorem eq_of_nodup_map {α β : Type} (f : α → β) : ∀ (l : List α), (l.map f).Nodup → ∀ x ∈ l, ∀ y ∈ l, f x = f y → x = y := by
+  intro l
+  induction l with
+  | nil => intro _ x hx; cases hx
+  | cons z zs ih =>
+    intro hnd x hx y hy e
+    rw [List.map_cons, List.nodup_cons] at hnd
+    rcases List.mem_cons.mp hx with hx | hx <;> rcases List.mem_cons.mp hy with hy | hy
+    · rw [hx, hy]
+    · exfalso; apply hnd.1; rw [← hx, e]; exact List.mem_map_of_mem hy
+    · exfalso; apply hnd.1; rw [← hy, ← e]; exact List.mem_map_of_mem hx
+    · exact ih hnd.2 x hx y hy e
+
+/-- once the stack is empty, every slot the tree walker wrote into a page that was handed out is named by that page's diff -/
+theorem named_outputs {w : Walker Node} {a : TW Node} (h : Sim H ps w a) (hst : w.stack = []) :
+    ∀ o ∈ w.outputPages, ∀ q ∈ a.wl, q ≠ [] → specPage q = o.pageId → o.diff.changed (specIndex q) = true := by
+  intro o ho q hq hne hqp
+  rcases h.named.2 q hq hne with ⟨sp, hsp, _⟩ | ⟨o', ho', h1, h2⟩ | ⟨_, h2⟩
+  · rw [hst] at hsp; cases hsp
+  · have : o' = o := eq_of_nodup_map PageOut.pageId _ h.named.1 o' ho' o ho (by rw [h1, hqp])
+    rw [← this]; exact h2
+  · exact absurd hqp.symm (h2 o ho)
+
+/-- after `conclude` the tree walker is back at the top layer -/
+theorem conclude_pos_le (hs : H.Sound) {D : Path → Prop} {pp : Option PageId} {root : Node} {S S' : List (Key × VH)}
+    (hS' : KeysOK S') {all : List (Step VH)} (hso : ScriptOK S S' all)
+    (hrep : Rep0 H D S (flatStore H ps root)) {w : Walker Node} {a : TW Node}
+    (h : RunInv H ps D pp root S S' all [] w a) :
+    (a.conclude H (cfgOf H ps pp)).pos.length ≤ 6 * k0 pp := by
+  rcases h.tw with ⟨hidle, _⟩ | ⟨hinv, _⟩
+  · have hconc : a.conclude H (cfgOf H ps pp) = a := by
+      unfold TW.conclude; exact tw_compactUp_idle H _ a _ hidle.pos
+    rw [hconc]; exact hidle.pos
+  · obtain ⟨c1, _⟩ := tw_conclude_spec H D hs hS' hso hrep (cfgOf H ps pp) a hinv _ rfl
+    rw [c1, List.length_take]
+    exact Nat.min_le_left _ _
+
 /-- `conclude` after a script -/
 theorem conclude_spec (hs : H.Sound) {D : Path → Prop} {root : Node} {S S' : List (Key × VH)} (hS : KeysOK S)
     (hS' : KeysOK S') {all : List (Step VH)} (hso : ScriptOK S S' all)
@@ -77,7 +115,9 @@ theorem conclude_spec (hs : H.Sound) {D : Path → Prop} {root : Node} {S S' : L
       ∀ o ∈ pages, ∃ P pg d b, o = .updated P pg d b ∧ pg.nodes.length = 126 ∧
         (∀ q, q ≠ [] → q.length ≤ 256 → specPage q = P → D q → Mean S' q →
           pg.nodes.getD (specIndex q) H.term = specNode H S' q) ∧
-        ∃ base, BaseOf ps P base ∧ DiffNames H pg.nodes base d := by
+        (∃ base, BaseOf ps P base ∧ DiffNames H pg.nodes base d) ∧
+        ∀ q ∈ (a.conclude H (cfgOf H ps none)).wl, q ≠ [] → specPage q = P → d.changed (specIndex q) = true := by
+  have hposle := conclude_pos_le H ps hs hS' hso hrep h
   obtain ⟨w1, hw1, hs1, hsame1⟩ := sim_compactUp H ps h.sim none (by intro t ht; cases ht)
     (a.conclude H (cfgOf H ps none)).log hnd
     ⟨fun hr => absurd hr (by rw [h.norec]; simp), by
@@ -123,10 +163,16 @@ theorem conclude_spec (hs : H.Sound) {D : Path → Prop} {root : Node} {S S' : L
     rw [this]
   · intro o ho
     obtain ⟨P, pg, d, b, st, e, hmem, hl, hm, hdiff⟩ := outMatches_updated H hs1 hnr1 o ho
-    refine ⟨P, pg, d, b, e, hl, ?_, hdiff⟩
-    intro q hq hql hqp hD hmean
-    rw [hm q hq hql hqp]
-    exact htw.2 (P, st) hmem q hq hqp hql hD hmean
+    refine ⟨P, pg, d, b, e, hl, ?_, hdiff, ?_⟩
+    · intro q hq hql hqp hD hmean
+      rw [hm q hq hql hqp]
+      exact htw.2 (P, st) hmem q hq hqp hql hD hmean
+    · intro q hq hne hqp
+      have hst1 : w1.stack = [] := hs1.stackE.mpr (by
+        show (a.compactUp H (cfgOf H ps none) none).pos.length ≤ _
+        rw [hpar1]; exact hposle)
+      have := named_outputs H ps hs1 hst1 o ho q hq hne (by rw [hqp, e]; rfl)
+      rw [e] at this; exact this
 
 /-- `conclude` after a script of a walker with a parent page: the child-page roots -/
 theorem conclude_children_spec (hs : H.Sound) {D : Path → Prop} {P0 : PageId} {root : Node} {S S' : List (Key × VH)}
@@ -139,7 +185,9 @@ theorem conclude_children_spec (hs : H.Sound) {D : Path → Prop} {P0 : PageId} 
       ∀ o ∈ pages, ∃ P pg d b, o = .updated P pg d b ∧ pg.nodes.length = 126 ∧
         (∀ q, q ≠ [] → q.length ≤ 256 → specPage q = P → D q → Mean S' q →
           pg.nodes.getD (specIndex q) H.term = specNode H S' q) ∧
-        ∃ base, BaseOf ps P base ∧ DiffNames H pg.nodes base d := by
+        (∃ base, BaseOf ps P base ∧ DiffNames H pg.nodes base d) ∧
+        ∀ q ∈ (a.conclude H (cfgOf H ps (some P0))).wl, q ≠ [] → specPage q = P → d.changed (specIndex q) = true := by
+  have hposle := conclude_pos_le H ps hs hS' hso hrep h
   obtain ⟨w1, hw1, hs1, hsame1⟩ := sim_compactUp H ps h.sim none (by intro t ht; cases ht)
     (a.conclude H (cfgOf H ps (some P0))).log hnd
     ⟨fun hr => absurd hr (by rw [h.norec]; simp), by
@@ -181,9 +229,30 @@ theorem conclude_children_spec (hs : H.Sound) {D : Path → Prop} {P0 : PageId} 
     exact htw.1 _ hmem
   · intro o ho
     obtain ⟨P, pg, d, b, st, e, hmem, hl, hm, hdiff⟩ := outMatches_updated H hs1 hnr1 o ho
-    refine ⟨P, pg, d, b, e, hl, ?_, hdiff⟩
-    intro q hq hql hqp hD hmean
-    rw [hm q hq hql hqp]
-    exact htw.2 (P, st) hmem q hq hqp hql hD hmean
+    refine ⟨P, pg, d, b, e, hl, ?_, hdiff, ?_⟩
+    · intro q hq hql hqp hD hmean
+      rw [hm q hq hql hqp]
+      exact htw.2 (P, st) hmem q hq hqp hql hD hmean
+    · intro q hq hne hqp
+      have hst1 : w1.stack = [] := hs1.stackE.mpr (by
+        show (a.compactUp H (cfgOf H ps (some P0)) none).pos.length ≤ _
+        rw [hpar1]; exact hposle)
+      have := named_outputs H ps hs1 hst1 o ho q hq hne (by rw [hqp, e]; rfl)
+      rw [e] at this; exact this
+
+/-- the slots the tree walker writes along a whole walk (`set_node` / `set_sibling`, in order) -/
+def walkWrites (pp : Option PageId) (root : Node) (steps : List (Step VH)) : List Path :=
+  ((({ pos := [], store := flatStore H ps root, log := [], cpr := [] } : TW Node).run H (cfgOf H ps pp) steps).conclude H
+    (cfgOf H ps pp)).wl
+
+/-- **every meaningful slot at or below a replaced terminal is written** along the walk -/
+theorem walkWrites_block (hs : H.Sound) {S S' : List (Key × VH)} (hS' : KeysOK S') (pp : Option PageId) (root : Node)
+    {steps : List (Step VH)} (hso : ScriptOK S S' steps) :
+    ∀ s ∈ steps, s.2.isSome = true → BlockWritten S' s.1 (walkWrites H ps pp root steps) := by
+  intro s hs' hsome
+  have := tw_run_written H hs hS' (cfgOf H ps pp) steps
+    ({ pos := [], store := flatStore H ps root, log := [], cpr := [] } : TW Node)
+    (fun s1 h1 => ⟨hso.len s1 h1, hso.repl s1 h1⟩) s hs' hsome
+  exact blockWritten_mono this (tw_compactUp_wl_mono H _ _ none)
 
 end Nomt.Walker.G
